@@ -14,7 +14,7 @@ from .values import (NONE, SV, OutsideSubset, TBottom, TypeMismatch, box, coerce
 
 CONTRACT_BUILTINS = frozenset(('old', 'val', 'implies', 'forall', 'exists', 'fresh', 'keys', 'updated', 'removed', 'orelse',
                               'is_alt', 'alt', 'cast', 'isa', 'isclass', 'invariant_of', 'unchanged', 'entry', 'is_prefix'))
-MUTATORS = ('append', 'extend', 'update', 'insert', 'remove', 'pop', 'setdefault', 'clear')
+MUTATORS = ('append', 'extend', 'update', 'insert', 'remove', 'pop', 'setdefault', 'clear', 'reverse')
 
 
 class CallMixin:
@@ -862,6 +862,16 @@ class CallMixin:
             return [(st, NONE)]
         if op == 'clear':
             self.write_place(st, pl, SV(cont.ty, z3.Empty(cont.ty.sort())), node)
+            return [(st, NONE)]
+        if op == 'reverse' and not args:
+            if cont.ty.elem is TBottom:
+                return [(st, NONE)]
+            r = fresh(cont.ty, 'rev')
+            n = z3.Length(cont.t)
+            k = z3.Int('rv!k')
+            st.assume(z3.Length(r.t) == n)
+            st.assume(z3.ForAll([k], z3.Implies(z3.And(k >= 0, k < n), r.t[k] == cont.t[n - 1 - k])))
+            self.write_place(st, pl, r, node)
             return [(st, NONE)]
         raise OutsideSubset('list.' + op)
 
